@@ -154,8 +154,16 @@ def pre_case(case, env):
                 continue
             status, so, se = r
             has_match = {}
+            stops_before_eof = {}
             for fi in files:
-                has_match[fi["name"]] = (pattern.encode() in fi["emitted"])
+                em = fi["emitted"]
+                has_match[fi["name"]] = (pattern.encode() in em)
+                # rg stops reading early only if the line that makes it stop
+                # is complete; a match on an unterminated tail forces it to
+                # read on until end of input (the output is then consumed)
+                first = next((l for l in em.split(b"\n") if pattern.encode() in l), None)
+                idx = em.find(first) if first is not None else -1
+                stops_before_eof[fi["name"]] = first is not None and em.find(b"\n", idx) >= 0
             expect_err = []
             unconstrained = []
             for fi in files:
@@ -164,7 +172,7 @@ def pre_case(case, env):
                 failing = fi["exit"] != 0 or fi["killed"]
                 if not failing:
                     continue
-                early = mname != "none" and has_match[fi["name"]]
+                early = mname != "none" and has_match[fi["name"]] and stops_before_eof[fi["name"]]
                 env.count("fault_%s_%s_stderr%d" % ("killed" if fi["killed"] else "exit%d" % fi["exit"], fi["when"], min(fi["stderr"], 101)))
                 if early and fi["stderr"] > 0:
                     unconstrained.append(fi["name"])
@@ -278,10 +286,10 @@ def misc_case(case, env):
 
 def check(tier, seed, t0):
     common.build_rg()
-    n = 24 if tier == "quick" else 600
+    n = 100 if tier == "quick" else 1500
     ex = {"tier": tier}
-    parts = [("pre", common.run_cli_cases(None, pre_case, seed, "c18p", n, 2 if tier == "quick" else 38, extra=ex)),
-             ("decompress+missing", common.run_cli_cases(None, misc_case, seed, "c18z", 8 if tier == "quick" else 64, 1 if tier == "quick" else 4, extra=ex))]
+    parts = [("pre", common.run_cli_cases(None, pre_case, seed, "c18p", n, 7 if tier == "quick" else 47, extra=ex)),
+             ("decompress+missing", common.run_cli_cases(None, misc_case, seed, "c18z", 16 if tier == "quick" else 96, 1 if tier == "quick" else 6, extra=ex))]
     if tier == "thorough":
         import sanitize
         parts.append(("asan", sanitize.rg_sanitizer_leg("C18", "asan", pre_case, None, 32, 2, extra={"tier": "quick"})(tier, seed)))
